@@ -16,9 +16,9 @@ both by the rules (the cell would lie in two regions) and for the module.
 import itertools
 
 NAME = "compass"
-STATUS = "differential only"
+STATUS = "model+differential"
 THEOREMS = []
-LEAN_CMD = None
+LEAN_CMD = "puz_compass"
 
 # (h, w, max number of compasses) such that k ** (h*w) stays small
 _SHAPES = [(1, 1, 2), (1, 2, 3), (2, 1, 3), (1, 3, 4), (3, 1, 4), (1, 4, 4), (4, 1, 4), (2, 2, 4), (1, 5, 4), (5, 1, 4), (2, 3, 4), (3, 2, 4),
@@ -121,3 +121,11 @@ def classify(problem, description):
     if "raised" in description:
         return "raises"
     return "mismatch"
+
+
+def _table(t):
+    return "(" + " ".join("(" + " ".join(str(v) for v in row) + ")" for row in t) + ")"
+
+
+def lean_line(problem):
+    return "(puz_compass %d %d %s)" % (problem["height"], problem["width"], _table(problem["problem"]))
